@@ -69,6 +69,8 @@ class IoProgram(Program):
         ty = ty.strip()
         if ty in self.writable:
             return self.writable[ty], {}
+        if ty.startswith('&') and ty.lstrip('&').strip() in self.writable:
+            return self.writable[ty.lstrip('&').strip()], {}     # impls are keyed by the self type with references stripped
         parts = tuple_parts(ty)
         if parts:
             for rt, f in self.writable.items():
@@ -165,6 +167,26 @@ def conc(m, iv, what):
     raise Unsupported('non-integer ' + what)
 
 
+def digit_pair_window(P, arr, start, end):
+    """decimal-structure lemma L4: T is the table "00".."99" (checked on its concrete contents), the index is 2*x for a value x
+    annotated with at most two decimal digits, the window has length 2  =>  the window is ('0'+tens digit, '0'+units digit)"""
+    sc = getattr(start, 'scaled', None)
+    if not sc or sc[0] != 2 or sc[1].dec is None or len(sc[1].dec) > 2 or arr.n != 200:
+        return None
+    ln = z3.simplify(end.z() - start.z())
+    if not (z3.is_bv_value(ln) and ln.as_long() == 2):
+        return None
+    for k in range(100):
+        a, b = arr.get(2 * k), arr.get(2 * k + 1)
+        if a.sym() or b.sym() or a.v != 48 + k // 10 or b.v != 48 + k % 10:
+            return None
+    dec = sc[1].dec
+    units = dec[0] if dec else z3.BitVecVal(0, 8)
+    tens = dec[1] if len(dec) > 1 else z3.BitVecVal(0, 8)
+    P.used_lemmas.add(('digit-pair-table', 32, 2))
+    return SliceRef(Arr(2, I(0, 'u8'), {0: mk_int(tens + 48, 'u8'), 1: mk_int(units + 48, 'u8')}), 0, 2)
+
+
 def sym_window(m, arr, start, end):
     """&table[start..end] with a SYMBOLIC start and a concrete length, into a table of concrete contents: the window's elements
     are if-then-else chains over the table (read-only copy)"""
@@ -220,8 +242,12 @@ def install_models(P):
         arr = _load(a[0])
         rng = a[1]
         kind = mm.group(1)
-        if kind == 'Range' and isinstance(rng[0], I) and rng[0].sym() and 'Mut' not in mm.string and getattr(P, 'allow_sym_window', False):
-            return sym_window(m, arr, rng[0], rng[1])     # off by default: with wide integers the resulting queries ran for hours
+        if kind == 'Range' and isinstance(rng[0], I) and rng[0].sym() and 'Mut' not in mm.string:
+            w = digit_pair_window(P, arr, rng[0], rng[1])
+            if w is not None:
+                return w
+            if getattr(P, 'allow_sym_window', False):
+                return sym_window(m, arr, rng[0], rng[1])     # off by default: with wide integers the resulting queries ran for hours
         if kind == 'RangeFrom':
             st, en = conc(m, rng[0], 'range start'), arr.n
         elif kind == 'RangeTo':
